@@ -1454,6 +1454,17 @@ XSLTEngineImpl::flushPending()
                 }
                 else if (theFormatter->getOutputFormat() == FormatterListener::OUTPUT_METHOD_XML)
                 {
+                    // As in StylesheetRoot::setupFormatterListener(), start with
+                    // the value from the stylesheet, and let the execution context
+                    // override it...
+                    const StylesheetExecutionContext::eEscapeURLs   eEscapeURLs =
+                        m_executionContext->getEscapeURLs();
+
+                    const bool  outputEscapeURLs =
+                        eEscapeURLs == StylesheetExecutionContext::eEscapeURLsDefault ?
+                            m_stylesheetRoot->getOutputEscapeURLs() :
+                            eEscapeURLs == StylesheetExecutionContext::eEscapeURLsYes;
+
                     // Yuck!!! Ugly hack to switch to HTML on-the-fly.
                     setFormatterListenerImpl(
                         m_executionContext->createFormatterToHTML(
@@ -1465,7 +1476,8 @@ XSLTEngineImpl::flushPending()
                             m_stylesheetRoot->getHTMLOutputIndent(),
                             theFormatter->getIndent() > 0 ?
                                 theFormatter->getIndent() :
-                                StylesheetExecutionContext::eDefaultHTMLIndentAmount));
+                                StylesheetExecutionContext::eDefaultHTMLIndentAmount,
+                            outputEscapeURLs));
 
                     if (m_hasCDATASectionElements == true)
                     {
